@@ -201,7 +201,7 @@ def oracle_fit(ctx, thorough, forced=None):
             weight = (wk, ssd.A, ssd.B, ssd.C, ssd.D)
         else:       # a second-order filter in modal form, feasible with the initial P = I
             weight = (wk, np.diag([0.6, -0.3]), np.array([[0.3], [0.2]]), np.array([[2.0, -3.0]]), np.array([[0.5]]))
-            if forced is not None and len(forced) > 2:
+            if forced is not None and len(forced) > 2 and forced[2] is not None:
                 poles, cw = forced[2]
                 weight = (wk, np.diag(poles), np.array([[0.3], [0.2]]), np.array([cw]), np.array([[0.5]]))
     fam = rng.choice(['edmd', 'dmdc'])
@@ -212,9 +212,13 @@ def oracle_fit(ctx, thorough, forced=None):
     if forced is not None:
         # a heavily regularised fit makes gamma_ tight, so a wrong cascade shows as norm > gamma_
         args.update(alpha=100, ratio=1, max_iter=6, square_norm=False)
+        if len(forced) > 3 and forced[3] == 'square':
+            # the squared-norm regulariser, enough iterations for the bound to become tight, and a gain BELOW one (where a
+            # bound on the squared norm reported as the bound on the norm would be too small)
+            args.update(max_iter=12, square_norm=True)
     reg = (lmi.LmiEdmdHinfReg if fam == 'edmd' else lmi.LmiDmdcHinfReg)(**args)
     case = {'family': fam, 'nx': nx, 'nu': nu, 'weight': wk, 'alpha': args['alpha'], 'ratio': args['ratio'],
-            'max_iter': args['max_iter'], 'X': X.tolist(),
+            'max_iter': args['max_iter'], 'square_norm': bool(args['square_norm']), 'X': X.tolist(),
             'replay': {'rng': snap, 'thorough': thorough, 'forced': forced}}
     try:
         reg.fit(X, **kw)
@@ -434,6 +438,7 @@ def run(ctx):
                 ctx.mismatch('the H-infinity oracle is below the gain at a point of the unit circle', case, None, [float(sig)])
     ctx.attempt('frequency response', _sec_frequency_response)
     sweeps = [('post', fam) for fam in ('edmd', 'dmdc') for _ in range(4)] + [('pre', 'edmd'), ('pre', 'dmdc')]   # second-order weights, two states
+    sweeps += [(None, 'edmd', None, 'square'), (None, 'dmdc', None, 'square'), ('post', 'dmdc', None, 'square')]
     for i in range(ctx.n(14, 250) + len(sweeps)):
         why, case, note = oracle_fit(ctx, ctx.tier == 'thorough', forced=sweeps[i] if i < len(sweeps) else None)
         ctx.count('fit:' + case['family'] + '/' + str(case['weight']))
